@@ -10,6 +10,7 @@ O2  per-constant lemma on the real tables (for every L in 0..254, all y: `exp[(l
     SLIP39 polynomial (secret at 255, digest share at 254, random shares at 0..k-3) and that every subset of >= k shares
     gives the secret back and passes the digest check.
 O3  ShareSet.__init__ / recover with symbolic header fields: what is accepted is a consistent set of enough distinct shares.
+    O3-digest-enforced: k shares with consistent headers and arbitrary values: recover() returns only when the digest equation holds.
 O4  Share.mnemonic / Share.parse bit packing through a handle word list, RS1024 (real rs1024_polymod, if-converted):
     one-step XOR-linearity from an arbitrary state, per-position syndrome maps, every <= 3-word error pattern detected.
 O5  decrypt(encrypt(x)) == x with PBKDF2 uninterpreted.
@@ -71,8 +72,11 @@ META = {
             "codec": "Share.mnemonic / Share.parse for 128- and 256-bit shares with every header field and the value symbolic; every "
                      "sequence of 20 / 33 list words (full words, four-letter prefixes, alternating) accepted exactly when checksum, "
                      "padding and threshold <= count hold, and re-encoded identically; one unknown word at positions 0, 4, last",
-            "feistel": "payload 16 / 32 symbolic bytes, passphrase of 0, 1, 6, 40 symbolic bytes, identifier symbolic (15 bits), "
-                       "exponent symbolic in 0..2; both directions",
+            "digest enforced": "k = 2, 3 shares with consistent headers and arbitrary symbolic values (16 / 32 bytes, not produced by a split), "
+                               "at group level and at member level: recover() returns only on paths where HMAC(D[4:], S)[:4] == D[:4] for the "
+                               "values interpolated at 254 / 255",
+            "feistel": "payload 16 / 32 symbolic bytes, passphrase of 0, 1, 2 (short) and 6, 40 (long, capped at 64 paths / 90 s per length) "
+                       "symbolic bytes over all 256 values, identifier symbolic (15 bits), exponent symbolic in 0..2; both directions",
             "wiring": "generate_shares -> recover_mnemonic: 1-of-1 and 2-of-3 (every subset of >= 2 shares), 16-byte secret, symbolic "
                       "secret / passphrase (0 and 3 bytes) / identifier / random bytes, exponent 0 and 1"},
         "thorough": {
@@ -84,7 +88,8 @@ META = {
                        "(three symbolic group indices exceed the 60000-path budget)",
             "rs1024": "left fold for prefixes of 0..3 symbols (affinity 0..2); every position triple of 20-word (1140) and 33-word (5456) shares with three symbolic "
                       "error symbols (each triple covers its sub-patterns, hence every 1-, 2- and 3-word error)",
-            "codec": "same plus the all-prefix form", "feistel": "passphrase lengths 0,1,2,6,13,40,100",
+            "digest enforced": "additionally k = 4, 5, more x-coordinate sets, 3 shares against threshold 2",
+            "codec": "same plus the all-prefix form", "feistel": "passphrase lengths 0,1,2 and 6,13,40,100 (capped)",
             "wiring": "(1,1),(1,3),(2,2),(2,3),(3,5),(5,5),(2,8) over 16/32-byte secrets, exponents 0..2, sampled subsets for n >= 5"}},
     "outside": [
         "'fewer than k shares never return a secret' is decided structurally (O3: what recover() accepts is a consistent set with at "
@@ -845,6 +850,86 @@ def replay_refusal(w):
     return {"violated": False, "observed": last}
 
 
+# =============================================================================================== O3 digest enforced on arbitrary share values
+
+def _digest_path(nb, xs, level, extra_fields):
+    """len(xs) shares with consistent headers and ARBITRARY symbolic values (not the output of a split) at the x-coordinates xs
+    (group indices for level='group', member indices inside one group for level='member').  Whenever recover() returns, the digest
+    equation HMAC(key = D[4:], msg = S)[:4] == D[:4] must hold for D / S = the values interpolated at 254 / 255."""
+    sh, S = mods()
+    GF_REWRITE[0] = True
+    k = len(xs)
+    ident = SI.var("id", 0, (1 << 15) - 1)
+    e = 0
+    ds = []
+    for j, x in enumerate(xs):
+        if level == "group":
+            d = {"id": ident, "exponent": e, "gi": x, "gt": extra_fields["threshold"], "gc": 16, "mi": 0, "mt": 1}
+        else:
+            d = {"id": ident, "exponent": e, "gi": 0, "gt": 1, "gc": 1, "mi": x, "mt": extra_fields["threshold"]}
+        d["bits"] = 8 * nb
+        d["value"] = SBytes.sym(f"v{j}", nb)
+        ds.append(d)
+
+    def wit(env):
+        out = []
+        for j, d in enumerate(ds):
+            o = {kk: (env["id"] if kk == "id" else d[kk]) for kk in ("id", "exponent", "gi", "gt", "gc", "mi", "mt", "bits")}
+            o["value"] = bytes_env(env, f"v{j}", nb).hex()
+            out.append(o)
+        return {"shares": out, "level": level}
+    objs = [sh.Share(d["bits"], d["id"], d["exponent"], d["gi"], d["gt"], d["gc"], d["mi"], d["mt"], core.int_from_bytes(d["value"], "big"))
+            for d in ds]
+    S.decrypt = lambda self, secret, passphrase=b"": secret      # O5's subject; the identity here so that the returned value is S itself
+    try:
+        try:
+            r = S(list(objs)).recover(b"")
+        except ValueError as ex:
+            check(True, "refused")
+            return "refused:" + str(ex)
+    finally:
+        S.decrypt = _STATE["real_decrypt"]
+    data = [(x, d["value"]) for x, d in zip(xs, ds)]
+    D = S.interpolate(DIGEST_X, list(data))       # the real interpolate; the same (hash-consed) terms the code under test built
+    Sv = S.interpolate(SECRET_X, list(data))
+    mac = _sym_hmac(D[4:], Sv)
+    check(_bytes_all_eq(list(mac)[:4], list(D)[:4]), f"recover() returned a secret for {k} arbitrary share values although the digest share "
+                                                      f"interpolated at 254 does not authenticate the secret interpolated at 255", witness=wit)
+    check((len(r) == nb) and _bytes_all_eq(r, Sv), "recover() does not return the value interpolated at 255", witness=wit)
+    return "returned"
+
+
+@_with_mods
+def ob_digest_enforced(nb, xs, level, threshold):
+    r = sym_run(lambda: _digest_path(nb, xs, level, {"threshold": threshold}), expect_classes=["returned", "refused:Digest does not match secret"],
+                timeout_ms=120000, max_violations=8)
+    r["sample"] = {"secret_bytes": nb, "x-coordinates": list(xs), "level": level, "threshold": threshold,
+                   "symbolic": "every byte of every share value, the identifier"}
+    return r
+
+
+def replay_digest(w):
+    """real recover() on the concrete share values: violated iff it returns although the real HMAC of the values interpolated
+    (by the reference Lagrange formula) at 254 / 255 does not match"""
+    from buidl.shamir import ShareSet
+    ds = w["shares"]
+    objs = [_native_share(d) for d in ds]
+    xs = [d["gi"] if w["level"] == "group" else d["mi"] for d in ds]
+    pts = [(x, bytes.fromhex(d["value"])) for x, d in zip(xs, ds)]
+    D = bytes(spec_interpolate(DIGEST_X, pts))
+    Sv = bytes(spec_interpolate(SECRET_X, pts))
+    ok = _real_hmac(D[4:], Sv)[:4] == D[:4]
+    ss = ShareSet(objs)
+    ss.decrypt = lambda secret, passphrase=b"": secret
+    try:
+        r = ss.recover(b"")
+    except Exception as ex:
+        return {"violated": False, "observed": f"refused: {ex!r}"}
+    return {"violated": not ok, "observed": f"{w['level']}-level recover() of {len(ds)} share values {[d['value'] for d in ds]} at x = {xs} returned "
+                                            f"{bytes(r).hex()}; digest share at 254 = {D.hex()}, HMAC(D[4:], S)[:4] = {_real_hmac(D[4:], Sv)[:4].hex()} "
+                                            f"({'matches' if ok else 'does NOT match'} D[:4])"}
+
+
 # =============================================================================================== O5 Feistel
 
 def _o5_path(nb, lp, exps):
@@ -880,8 +965,11 @@ def _o5_path(nb, lp, exps):
 
 
 @_with_mods
-def ob_feistel(nb, lps, exps):
-    runs = [sym_run(lambda: _o5_path(nb, lp, exps), expect_classes=["ok"], timeout_ms=120000) for lp in lps]
+def ob_feistel(nb, lps, exps, max_paths=64, wall_s=90):
+    """one exploration per passphrase length, each capped (a passphrase-dependent fork in the code under test, e.g. stripping, would
+    otherwise multiply paths with the length; the 0..2-byte obligations then still decide quickly and report the counterexample)"""
+    runs = [sym_run(lambda: _o5_path(nb, lp, exps), expect_classes=["ok"], timeout_ms=120000, max_paths=max_paths, wall_s=wall_s,
+                    max_violations=12) for lp in lps]
     m = merge_runs(runs)
     m["sample"] = {"payload_bytes": nb, "passphrase_bytes": list(lps), "exponent": f"symbolic in {list(exps)}", "id": "symbolic 15 bits",
                    "pbkdf2": "uninterpreted"}
@@ -1671,6 +1759,12 @@ def obligations(tier):
                    ((None, 256), (4, 256), (None, 256))]
     for shp in shapes:
         obs.append(Ob("O3-refusal", ob_refusal, {"shape": shp}, replay="refusal", budget_s=600 if q else 3000))
+    dig = [(16, (0, 1), "group", 2), (16, (3, 9), "member", 2), (16, (0, 1, 2), "group", 3), (32, (2, 7, 15), "member", 3)]
+    if not q:
+        dig += [(32, (0, 1), "group", 2), (32, (5, 6), "member", 2), (16, (1, 4, 11), "member", 3), (32, (0, 8, 15), "group", 3),
+                (16, (0, 1, 2), "group", 2), (16, (0, 1, 2, 3), "group", 4), (16, (0, 5, 6, 10), "member", 4), (32, (0, 1, 2, 3, 4), "group", 5)]
+    for nb, xs, level, th in dig:
+        obs.append(Ob("O3-digest-enforced", ob_digest_enforced, {"nb": nb, "xs": xs, "level": level, "threshold": th}, replay="digest"))
     # O4
     obs.append(Ob("O4-rs-step", ob_rs_step, replay="rs"))
     obs.append(Ob("O4-rs-fold", ob_rs_fold, {"maxk": 2 if q else 3}, replay="rs", budget_s=1200))
@@ -1696,8 +1790,9 @@ def obligations(tier):
         obs.append(Ob("O4-decode", ob_decode, {"nwords": nwords, "patterns": pats}, replay="decode"))
     # O5
     for nb in (16, 32):
-        obs.append(Ob("O5-feistel", ob_feistel, {"nb": nb, "lps": (0, 1, 6, 40) if q else (0, 1, 2, 6, 13, 40, 100), "exps": (0, 1, 2)},
+        obs.append(Ob("O5-feistel-short", ob_feistel, {"nb": nb, "lps": (0, 1, 2), "exps": (0, 1, 2), "max_paths": 2000, "wall_s": 300},
                       replay="feistel"))
+        obs.append(Ob("O5-feistel-long", ob_feistel, {"nb": nb, "lps": (6, 40) if q else (6, 13, 40, 100), "exps": (0, 1, 2)}, replay="feistel"))
     # O6
     wiring = [(16, 1, 1, 0, 0, None), (16, 2, 3, 3, 1, None)] if q else \
         [(16, 1, 1, 0, 0, None), (32, 1, 3, 4, 2, None), (16, 2, 2, 0, 0, None), (16, 2, 3, 3, 1, None), (32, 2, 3, 6, 2, None),
